@@ -249,3 +249,24 @@ static const int32_t *vf_ctype_up_ptr = vf_ctype_up + 128;
 void *X___ctype_b_loc(void) { return (void *)&vf_ctype_b_ptr; }
 void *X___ctype_tolower_loc(void) { return (void *)&vf_ctype_lo_ptr; }
 void *X___ctype_toupper_loc(void) { return (void *)&vf_ctype_up_ptr; }
+
+/* ---------------------------------------------------------------- <stdexcept> classes (out of line in libstdc++): message not modelled */
+#define VF_EXC_CLASS(mangled_len_name) \
+  void X__ZN##mangled_len_name##C1EPKc(void *self, void *msg) { (void)self; (void)msg; } \
+  void X__ZN##mangled_len_name##C2EPKc(void *self, void *msg) { (void)self; (void)msg; } \
+  void X__ZN##mangled_len_name##C1ERKNSt7__cxx1112basic_stringIcSt11char_traitsIcESaIcEEE(void *self, void *msg) { (void)self; (void)msg; } \
+  void X__ZN##mangled_len_name##C2ERKNSt7__cxx1112basic_stringIcSt11char_traitsIcESaIcEEE(void *self, void *msg) { (void)self; (void)msg; } \
+  void X__ZN##mangled_len_name##D1Ev(void *self) { (void)self; } \
+  void X__ZN##mangled_len_name##D2Ev(void *self) { (void)self; } \
+  void X__ZN##mangled_len_name##D0Ev(void *self) { free(self); }
+VF_EXC_CLASS(St12out_of_range)
+VF_EXC_CLASS(St11range_error)
+VF_EXC_CLASS(St13runtime_error)
+VF_EXC_CLASS(St11logic_error)
+VF_EXC_CLASS(St16invalid_argument)
+VF_EXC_CLASS(St12length_error)
+VF_EXC_CLASS(St14overflow_error)
+static uint8_t vf_what_text[] = "exception";
+void *X__ZNKSt13runtime_error4whatEv(void *self) { (void)self; return vf_what_text; }
+void *X__ZNKSt11logic_error4whatEv(void *self) { (void)self; return vf_what_text; }
+void *X__ZNKSt9exception4whatEv(void *self) { (void)self; return vf_what_text; }
